@@ -10,14 +10,18 @@ partnerless nodes of the working copy never grows: inserted nodes are matched at
 no node the script creates is deleted by it (`C17_created_never_deleted`, stated on the
 strict replay of the script: every `deleteNode` hits a node whose id is below the first
 fresh id).  `Proofs/Counts2.lean`.
-Not proved (decided per run by the counting oracle and the change-detecting strict replay
-of the real script): the attribute-action bound summed over the document (per node pair
-the actions are attribute actions on that node, `C17_attr_phase_only_attr_actions`), and
+The attribute actions of a script are bounded by the attributes of the two documents
+together (`C17_attribute_actions_bound`, `Proofs/AttrCount.lean`, `Proofs/AttrTotal.lean`):
+per node pair at most |attrs l| + |attrs x| actions (a renamed attribute is not deleted
+afterwards), and the attributes of the nodes whose partner is still unvisited are a
+potential that every visit pays from.
+Not proved (decided per run by the change-detecting strict replay of the real script):
 "every action changes the document" (known finding R1 is the value-level exception: moves
 past value-identical siblings).
 -/
 import XmlDiffModel.Proofs.Counts
 import XmlDiffModel.Proofs.Counts2
+import XmlDiffModel.Proofs.AttrTotal
 
 namespace XmlDiffModel
 
@@ -49,6 +53,18 @@ theorem C17_created_never_deleted (qn : QName) (cfg : Cfg) (L R : Tree) (M : Lis
     (h : scriptGen qn cfg L R M fresh = .ok (script, final)) :
     ∀ i ∈ C17.delTargets qn ⟨L, fresh⟩ script, i < fresh :=
   C17.scriptGen_created_not_deleted qn cfg L R M fresh script final hL hR hdisj hfL hfR hM hA hC h
+
+/-- No more attribute actions than there are (non-ignored) attributes in the two documents together:
+`asz ign L i` is the number of non-ignored attributes of node `i` of `L`, `rattrs ign (bfs R)` the number of
+non-ignored attributes of all nodes of `R`. -/
+theorem C17_attribute_actions_bound (qn : QName) (cfg : Cfg) (L R : Tree) (M : List (Nat × Nat)) (fresh : Nat)
+    (script : List Action) (final : Tree) (hL : L.WF) (hR : R.WF)
+    (hfL : ∀ i ∈ Tree.ids L, i < fresh) (hM : Chw.GoodMatching L R M)
+    (hA : ∀ x ∈ Tree.bfs R, (keys x.payload.attrs).Nodup)
+    (h : scriptGen qn cfg L R M fresh = .ok (script, final)) :
+    script.countP AttrCount.isAttr ≤
+      ((Tree.ids L).map (AttrTotal.asz cfg.ignored L)).sum + AttrTotal.rattrs cfg.ignored (Tree.bfs R) :=
+  AttrTotal.scriptGen_attr_bound qn cfg L R M fresh script final hL hR hfL hM hA h
 
 /-- Non-vacuity of `delTargets`: a script that inserts a node and deletes it again is flagged (the created node has
 id 20 = `fresh`), so the theorem above excludes something. -/
